@@ -100,10 +100,10 @@ SPACEY["OC"] = """#import <Foundation/Foundation.h>
 """
 SPACEY["JAVA"] = """package p . q ;
 import java . util . * ;
-@ SuppressWarnings ( "x" ) public class A < T extends Comparable < T > > extends B implements C , D {
+@SuppressWarnings ( "x" ) public class A < T extends Comparable < T > > extends B implements C , D {
     private final int [ ] arr = new int [ ] { 1 , 2 } ; private Map < String , List < Integer > > m = new HashMap < > ( ) ;
     public A ( int a ) { super ( a ) ; this . arr [ 0 ] = a ; }
-    @ Override public < U > U f ( U u , int ... rest ) throws E1 , E2 {
+    @Override public < U > U f ( U u , int ... rest ) throws E1 , E2 {
         for ( int i = 0 ; i < rest . length ; i ++ ) { if ( i > 1 && ! ( i == 2 ) ) continue ; else break ; }
         for ( String s : m . keySet ( ) ) { System . out . println ( s + "x" ) ; }
         try { g ( ) ; } catch ( E1 | E2 e ) { throw e ; } finally { }
@@ -316,6 +316,10 @@ def run(ctx):
     ctx.cov["evaluations"] = len(jobs)
     ctx.cov["runs_unmapped"] = sum(1 for r_, info in res if info.get("unmapped"))
     ctx.cov["runs_refused"] = sum(1 for r_, info in res if info.get("rc"))
+    if ctx.cov["runs_refused"]:
+        # the programs are valid and the configurations only set spacing options: a refusal judges nothing (the Java program was refused in
+        # every run while it held '@ SuppressWarnings' - a blank behind the '@' is 'garbage' for uncrustify's Java tokenizer)
+        ctx.error("vacuity: %d runs of the generated programs were refused" % ctx.cov["runs_refused"])
     ctx.cov["runs_refused_which"] = sorted({"%s|%s|rc=%s" % (os.path.basename(j[3]), j[5], info.get("rc")) for (r_, info), j in zip(res, jobs) if info.get("rc")})[:40]
     ctx.cov["pair_classes_judged"] = len(evs)
     ctx.cov["rules_seen"] = len({e["rule"] for e in evs})
